@@ -76,6 +76,16 @@ def _walk(n):
         st.extend(kids(x))
 
 
+def walk_nodes(n):
+    st = [n]
+    while st:
+        x = st.pop()
+        if x is None:
+            continue
+        yield x
+        st.extend(kids(x))
+
+
 class Analyzer:
     """Shared across functions of a Program: return summaries, table ranges."""
 
@@ -157,6 +167,9 @@ class Analyzer:
         its own range is being computed yields the current approximation, and the outermost computation is
         repeated until the approximations are stable (else the type range)."""
         key = (rec, field)
+        ov = self.__dict__.get('field_override')
+        if ov and key in ov:
+            return ov[key]
         fr = self.__dict__.setdefault('_fr', {})
         if key in fr:
             return fr[key]
@@ -891,10 +904,92 @@ class FnIntervals:
                     if d['d'] in self.tracked:
                         self._assign(st, d['d'], self.eval(i, st))
 
+    def _range_guard(self, call):
+        """(value arg, lo arg, hi arg, failing return constant) when `call` invokes a range predicate: a function whose
+        body is `if (p < a || p > b) { ...; return C; } return 0;` over its own parameters (asm/common.cpp
+        check_range and look-alikes).  Recognised from the callee's syntax tree, cached per callee."""
+        from .facts import ckey, call_args
+        ck = ckey(call)
+        cache = self.an.__dict__.setdefault('_range_guards', {})
+        if ck not in cache:
+            cache[ck] = None
+            f = self.an.prog.by_key.get(ck) if ck else None
+            if f is not None and f.body is not None:
+                ps_ = {p['d']: i for i, p in enumerate(f.params())}
+                stmts = [x for x in kids(f.body) if x is not None]
+                if len(stmts) == 2 and stmts[0]['k'] == 'IfStmt' and stmts[1]['k'] == 'ReturnStmt' and const(kids(stmts[1])[0]) == 0:
+                    ic = [x for x in kids(stmts[0]) if x is not None]
+                    cnd = strip(ic[0])
+                    if cnd['k'] == 'BinaryOperator' and cnd.get('op') == '||' and len(ic) == 2:
+                        l, r = strip(kids(cnd)[0]), strip(kids(cnd)[1])
+                        def side(x, op):
+                            if x['k'] == 'BinaryOperator' and x.get('op') == op:
+                                a, b = strip(kids(x)[0], casts=True), strip(kids(x)[1], casts=True)
+                                if a['k'] == 'DeclRefExpr' and b['k'] == 'DeclRefExpr' and a.get('d') in ps_ and b.get('d') in ps_:
+                                    return ps_[a['d']], ps_[b['d']]
+                            return None
+                        lo_, hi_ = side(l, '<'), side(r, '>')
+                        rets = [x for x in walk_nodes(ic[1]) if x['k'] == 'ReturnStmt']
+                        if lo_ and hi_ and lo_[0] == hi_[0] and rets and all(kids(x) and (const(kids(x)[0]) or 0) != 0 for x in rets):
+                            cache[ck] = (lo_[0], lo_[1], hi_[1], const(kids(rets[-1])[0]))
+        g = cache.get(ck)
+        if g is None:
+            return None
+        a = call_args(call)
+        if max(g[:3]) >= len(a):
+            return None
+        return a[g[0]], a[g[1]], a[g[2]], g[3]
+
+    def _refine_guard(self, c, st, truth):
+        """Branch on the result of a range predicate: on the in-range edge the value argument is inside [lo, hi]."""
+        call, in_range_when = None, None
+        if c['k'] == 'CallExpr':
+            call, in_range_when = c, False          # `if (check_range(...))` is true when out of range
+        elif c['k'] == 'BinaryOperator' and c.get('op') in ('==', '!=', '<'):
+            a, b = strip(kids(c)[0], casts=True), kids(c)[1]
+            if a['k'] == 'CallExpr' and const(b) is not None:
+                g = self._range_guard(a)
+                if g is None:
+                    return None
+                fail = g[3]
+                kb = const(b)
+                if c['op'] == '==' and kb == 0:
+                    call, in_range_when = a, True
+                elif c['op'] == '!=' and kb == 0:
+                    call, in_range_when = a, False
+                elif c['op'] == '==' and kb == fail:
+                    call, in_range_when = a, False
+                elif c['op'] == '!=' and kb == fail:
+                    call, in_range_when = a, True
+                elif c['op'] == '<' and kb == 0 and fail < 0:
+                    call, in_range_when = a, False
+        if call is None:
+            return None
+        g = self._range_guard(call)
+        if g is None or truth != in_range_when:
+            return None
+        v, lo, hi, _ = g
+        vid = self._vid(strip(v, casts=True))
+        if vid is None:
+            return None
+        lo_v, hi_v = self.eval(lo, st), self.eval(hi, st)
+        new = meet(self.var(st, vid), (lo_v[0], hi_v[1]))
+        if is_empty(new):
+            return 'empty'
+        st2 = dict(st)
+        st2[vid] = new
+        return st2
+
     def refine(self, cond, st, truth):
         """State on the `truth` edge of a branch on cond; None when infeasible."""
         c = strip(cond)
         k = c['k']
+        if k in ('CallExpr', 'BinaryOperator'):
+            g = self._refine_guard(c, st, truth)
+            if g == 'empty':
+                return None
+            if g is not None:
+                return g
         if k == 'UnaryOperator' and c.get('op') == '!':
             return self.refine(kids(c)[0], st, not truth)
         if k == 'BinaryOperator' and c['op'] in ('<', '<=', '>', '>=', '==', '!='):
